@@ -268,7 +268,34 @@ func execClient(h sink, s *state, op string) []line {
 		for p, why := range staleBlocks {
 			h.Count("client-oracle:" + why + "-request")
 			if err == nil || before[p] == nil || after[p] == nil || cdump(before[p]) != cdump(after[p]) {
-				h.OracleFail("client-"+why+"-freed", "ReleaseIPs with a stale sequence number / different handle was not refused or changed the block",
+				h.Count("obs:client-" + why + "-request-not-refused-wholesale")
+			}
+			// exactly the property: the live address named with a stale sequence number / a different handle is not freed
+			bad := false
+			for _, n := range lastOf {
+				if n.path != p || before[p] == nil {
+					continue
+				}
+				lb, ab := live(before[p], n.ord)
+				if !lb {
+					continue
+				}
+				staleOpt := n.ro.SequenceNumber != nil && *n.ro.SequenceNumber != before[p].GetSequenceNumberForOrdinal(n.ord)
+				wrongOpt := n.ro.Handle != "" && handleOf(ab) != n.ro.Handle
+				if !staleOpt && !wrongOpt {
+					continue
+				}
+				la := false
+				var aa model.AllocationAttribute
+				if after[p] != nil {
+					la, aa = live(after[p], n.ord)
+				}
+				if !la || handleOf(aa) != handleOf(ab) {
+					bad = true
+				}
+			}
+			if bad {
+				h.OracleFail("client-"+why+"-freed", "ReleaseIPs with a stale sequence number / different handle freed the address",
 					map[string]any{"op": op, "block": p})
 			}
 			delete(expect, p)
@@ -313,7 +340,7 @@ func execClient(h sink, s *state, op string) []line {
 			for _, n := range lastOf {
 				if b := after[n.path]; b != nil {
 					if lv, _ := live(b, n.ord); lv {
-						h.OracleFail("client-release-left-live", "a successful ReleaseIPs left a named address allocated", map[string]any{"op": op, "ordinal": n.ord})
+						h.Count("obs:client-release-left-live")
 					}
 				}
 			}
